@@ -17,6 +17,7 @@ package pql
 import (
 	"bytes"
 	"fmt"
+	"math"
 	"sort"
 	"strconv"
 	"strings"
@@ -84,14 +85,28 @@ func (q *Query) endConditional() {
 	if len(q.conditional) != 5 {
 		panic(fmt.Sprintf("conditional of wrong length: %#v", q.conditional))
 	}
-	low, _ := strconv.ParseInt(q.conditional[0], 10, 64)
+	low, err := strconv.ParseInt(q.conditional[0], 10, 64)
+	if err != nil {
+		panic(fmt.Sprintf("%s: %s", intOutOfRangeError, err))
+	}
 	field := q.conditional[2]
-	high, _ := strconv.ParseInt(q.conditional[4], 10, 64)
+	high, err := strconv.ParseInt(q.conditional[4], 10, 64)
+	if err != nil {
+		panic(fmt.Sprintf("%s: %s", intOutOfRangeError, err))
+	}
 
+	// The exclusive bounds are stored as inclusive ones; a bound that has
+	// no inclusive equivalent in int64 must not wrap around.
 	if q.conditional[1] == "<" {
+		if low == math.MaxInt64 {
+			panic(fmt.Sprintf("%s: lower bound %d < %s", intOutOfRangeError, low, field))
+		}
 		low++
 	}
 	if q.conditional[3] == "<" {
+		if high == math.MinInt64 {
+			panic(fmt.Sprintf("%s: upper bound %s < %d", intOutOfRangeError, field, high))
+		}
 		high--
 	}
 
